@@ -1100,12 +1100,17 @@ func c19keepalive(c *c19case, js string, s *vt.Sink, seed int64) error {
 	start := time.Now()
 	expired := false
 	afterMs := 0
+	lastRound, maxGap := start, time.Duration(0) // the harness measures its own punctuality
 	for time.Since(start) < 3500*time.Millisecond {
 		if closed.Load() {
 			expired = true
 			afterMs = int(time.Since(start) / time.Millisecond)
 			break
 		}
+		if g := time.Since(lastRound); g > maxGap {
+			maxGap = g
+		}
+		lastRound = time.Now()
 		for _, sk := range rtpSocks {
 			id++
 			seq++
@@ -1139,7 +1144,15 @@ func c19keepalive(c *c19case, js string, s *vt.Sink, seed int64) error {
 	if expired {
 		fmt.Printf("DRIVER-NOTE c19 keepalive %s/%s expired after %d ms\n", c.State, c.Src, afterMs)
 	}
-	tr.Emit("keepalive", "src", actual, "expired", expired, "state", c.State, "asked", c.Src)
+	if g := time.Since(lastRound); g > maxGap {
+		maxGap = g
+	}
+	if c.Src == "peer" && expired && maxGap > 700*time.Millisecond {
+		// the real peer (this harness) was late itself: an expiry says nothing about the library
+		tr.Emit("keepalive_void", "src", actual, "maxGapMs", int(maxGap/time.Millisecond))
+	} else {
+		tr.Emit("keepalive", "src", actual, "expired", expired, "state", c.State, "asked", c.Src)
+	}
 	tr.Emit("end")
 	return nil
 }
@@ -1244,11 +1257,18 @@ func c19keepaliveClient(c *c19case, js string, s *vt.Sink, seed int64) error {
 	}
 	start := time.Now()
 	expired, afterMs := false, 0
+	// the harness measures its own punctuality: the real peer sends every 200 ms; a round that
+	// starts more than 700 ms after the previous one means the machine stalled the harness
+	lastRound, maxGap := start, time.Duration(0)
 	for time.Since(start) < 5500*time.Millisecond {
 		if dead.Load() {
 			expired, afterMs = true, int(time.Since(start)/time.Millisecond)
 			break
 		}
+		if g := time.Since(lastRound); g > maxGap {
+			maxGap = g
+		}
+		lastRound = time.Now()
 		if c.Src == "peer" {
 			id++
 			seq++
@@ -1275,7 +1295,15 @@ func c19keepaliveClient(c *c19case, js string, s *vt.Sink, seed int64) error {
 	if expired {
 		fmt.Printf("DRIVER-NOTE c19 keepalive client/%s expired after %d ms\n", c.Src, afterMs)
 	}
-	tr.Emit("keepalive", "src", actual, "expired", expired, "state", c.State, "asked", c.Src, "side", "client")
+	if g := time.Since(lastRound); g > maxGap {
+		maxGap = g
+	}
+	if c.Src == "peer" && expired && maxGap > 700*time.Millisecond {
+		// the real peer (this harness) was late itself: an expiry says nothing about the library
+		tr.Emit("keepalive_void", "src", actual, "maxGapMs", int(maxGap/time.Millisecond), "side", "client")
+	} else {
+		tr.Emit("keepalive", "src", actual, "expired", expired, "state", c.State, "asked", c.Src, "side", "client")
+	}
 	tr.Emit("end")
 	return nil
 }
